@@ -17,6 +17,7 @@
 EXTENDS PulserProps, Json, IOUtils
 
 Traces == JsonDeserialize(IOEnv.TRACE_FILE)
+DebugDrift == "VERIF_DEBUG_DRIFT" \in DOMAIN IOEnv /\ IOEnv.VERIF_DEBUG_DRIFT = "1"
 
 VARIABLES tid, l, h
 tvars == <<s, hist, viol, tid, l, h>>
@@ -36,6 +37,23 @@ ObsOf(st) ==
        wt |-> st.ch[i].wt, mp |-> st.ch[i].mp, wq |-> st.ch[i].wq,
        du |-> ChanDur(st.ch[i]), df |-> ChanDurFall(CfgOf(st, i), st.ch[i])]]]
 
+(* equality of two observed states up to PhaseTol on phases (recorded traces carry phases *)
+(* quantised to 1e-6 rad; every other field is an exact integer)                          *)
+SeqPhEq(a, b) == Len(a) = Len(b) /\ \A k \in 1..Len(a) : PhEq(a[k], b[k])
+SlotEq(x, y) == [x EXCEPT !.ph = 0] = [y EXCEPT !.ph = 0] /\ PhEq(x.ph, y.ph)
+ChanEq(x, y) ==
+  /\ [x EXCEPT !.sl = <<>>] = [y EXCEPT !.sl = <<>>]
+  /\ Len(x.sl) = Len(y.sl) /\ \A k \in 1..Len(x.sl) : SlotEq(x.sl[k], y.sl[k])
+RefEq(x, y) ==
+  /\ x.b = y.b /\ Len(x.q) = Len(y.q)
+  /\ \A k \in 1..Len(x.q) :
+       x.q[k].lu = y.q[k].lu /\ x.q[k].ts = y.q[k].ts /\ SeqPhEq(x.q[k].ps, y.q[k].ps)
+ObsEq(a, b) ==
+  IF PhaseTol = 0 THEN a = b
+  ELSE /\ [a EXCEPT !.ch = <<>>, !.rf = <<>>] = [b EXCEPT !.ch = <<>>, !.rf = <<>>]
+       /\ Len(a.ch) = Len(b.ch) /\ \A k \in 1..Len(a.ch) : ChanEq(a.ch[k], b.ch[k])
+       /\ Len(a.rf) = Len(b.rf) /\ \A k \in 1..Len(a.rf) : RefEq(a.rf[k], b.rf[k])
+
 Consume ==
   /\ tid <= Len(Traces)
   /\ l <= Len(Traces[tid].steps)
@@ -44,13 +62,15 @@ Consume ==
          pre == StripObs(s)
          post == StripObs(e.post)
          m == Step(pre, c)
-         strict == m.out = e.out /\ m.ret = e.ret /\ ObsOf(m.st) = e.post
+         strict == m.out = e.out /\ m.ret = e.ret /\ ObsEq(ObsOf(m.st), e.post)
          v == Viol(pre, c, [st |-> post, out |-> e.out, ret |-> e.ret], h)
                 \cup (IF \E i \in 1..Len(e.post.ch) : e.post.ch[i].df # DeclDurFall(post.ch[i])
                             \/ e.post.ch[i].du # ChanDur(post.ch[i])
                       THEN {"C02.ReportedDuration"} ELSE {})
      IN /\ IF strict /\ v = {} THEN TRUE
-           ELSE PrintT("TV|" \o ToJson([t |-> tid, l |-> l, drift |-> ~strict, v |-> v]))
+           ELSE PrintT("TV|" \o ToJson([t |-> tid, l |-> l, drift |-> ~strict, v |-> v,
+                                       mo |-> m.out, mr |-> m.ret,
+                                       ms |-> IF strict \/ ~DebugDrift THEN <<>> ELSE ObsOf(m.st)]))
         /\ s' = e.post
         /\ viol' = v
         /\ h' = Append(h, <<e.k, e.out, e.ret>>)
